@@ -14,7 +14,7 @@ LEVEL = 'exploration'
 DEPENDS = []
 GROUP_ENV = {'pure': {'NUMBA_DISABLE_JIT': '1'}, 'jit': {}}
 MIN_DECISIVE = {'quick': 60, 'thorough': 90}
-RULE = ('one case per (degree l, order m, execution mode in {pure-python, compiled, off-table}) plus one coefficient-table '
+RULE = ('one case per (degree l, order m, execution mode in {pure-python, compiled, off-table}) plus one case per multi-degree lookup helper (obliquity on/off, max degree), one coefficient-table '
         'case per l and l<2 rejection cases; a case is non-trivial when at least one table entry or expected-omitted entry '
         'was compared against the independent Kaula oracle (entries compared are counted in monitor_counters)')
 ASSUMPTIONS = ['Kaula (1964) eq. 3.62 triple-sum formula for F_lmp as implemented in the harness is the reference',
@@ -56,6 +56,10 @@ def gen_cases(tier, seed):
         cases.append({'kind': 'coeffs', 'l': l, 'group': 'pure'})
         cases.append({'kind': 'coeffs', 'l': l, 'group': 'jit'})
         cases.append({'kind': 'lookup', 'l': l, 'group': 'pure'})
+        for on in (True, False):
+            cases.append({'kind': 'helper', 'l': l, 'on': on, 'group': 'pure'})       # multi-degree lookup helper with max degree l
+            if tier == 'thorough':
+                cases.append({'kind': 'helper', 'l': l, 'on': on, 'group': 'jit'})
     for l in (-3, 0, 1):
         cases.append({'kind': 'coeffs_reject', 'l': l, 'group': 'pure'})
     return cases
@@ -104,6 +108,44 @@ def eval_case(case):
         if not ok:
             viol.append({'key': f'inclination-lookup-l{l}', 'desc': f'lookup helpers for l={l} do not return the order-l tables'})
         return {'status': 'violated' if viol else 'held', 'nontrivial': True, 'violations': viol, 'obs': {'l': l}}
+    if kind == 'helper':
+        # the multi-degree helpers used by the mode calculators: for max degree L they must return, for every l = 2..L, exactly the
+        # degree-l table (full or obliquity-off); each returned table is compared with Kaula directly
+        from TidalPy.tides.modes.mode_calc_helper import inclination_functions_lookup
+        L, on = l, case['on']
+        fn = inclination_functions_lookup[on][L]
+        I = 4 * np.pi * np.arange(M) / M if on else np.zeros(4)
+        res = fn(I)
+        ls = sorted(int(k) for k in res.keys())
+        if ls != list(range(2, L + 1)):
+            viol.append({'key': f'inclination-helper-degrees-{"on" if on else "off"}-maxl{L}', 'desc': f'helper (obliquity {"on" if on else "off"}, max l={L}) returned degrees {ls}'})
+        for ll in ls:
+            if ll < 2 or ll > 7:
+                continue
+            tab = res[ll]
+            keys = sorted((int(k[0]), int(k[1])) for k in tab.keys())
+            for mm in range(ll + 1):
+                for pp in range(ll + 1):
+                    ex = kaula_F(ll, mm, pp, I) ** 2
+                    if (mm, pp) in keys:
+                        got = np.asarray(tab[(mm, pp)], dtype=float)
+                        cnt['entries_compared'] += 1
+                        err = float(np.max(np.abs(got - ex)) / max(1.0, np.max(np.abs(ex))))
+                        if err > 1e-11:
+                            viol.append({'key': f'inclination-helper-{"on" if on else "off"}-maxl{L}-l{ll}', 'desc': f'helper (obliquity {"on" if on else "off"}, max l={L}): degree {ll} entry ({mm},{pp}) differs from Kaula F^2 by {err:.3e} (wrong table wired in?)'})
+                            break
+                    else:
+                        cnt['omitted_checked'] += 1
+                        if float(np.max(np.abs(ex))) > 1e-13:
+                            viol.append({'key': f'inclination-helper-{"on" if on else "off"}-maxl{L}-l{ll}', 'desc': f'helper (obliquity {"on" if on else "off"}, max l={L}): degree {ll} table omits ({mm},{pp}) although F^2 is non-zero there'})
+                            break
+                else:
+                    continue
+                break
+            extra = [k for k in keys if k[0] > ll or k[1] > ll]
+            if extra:
+                viol.append({'key': f'inclination-helper-{"on" if on else "off"}-maxl{L}-l{ll}', 'desc': f'degree {ll} table contains impossible entries {extra}'})
+        return {'status': 'violated' if viol else 'held', 'nontrivial': cnt['entries_compared'] > 0, 'violations': viol[:6], 'obs': {'max_l': L, 'obliquity_on': on, 'degrees': ls}, 'counters': cnt}
     m = case['m']
     I = 4 * np.pi * np.arange(M) / M
     if kind == 'on':
